@@ -144,7 +144,9 @@ impl<T: Neg> Neg for IntOfLog<T> {
 impl<T: Evaluate> Evaluate for IntOfLog<T> {
     #[inline]
     fn evaluate(&self, v: f64) -> f64 {
-        self.k + self.poly.evaluate(v.ln())
+        // The antiderivative of p(ln v) is v * q(ln v) + k (see the
+        // `indefinite` recurrences below), same shape as `IntOfLogPoly4`.
+        v.mul_add(self.poly.evaluate(v.ln()), self.k)
     }
 }
 
